@@ -24,3 +24,9 @@ claim("C08", "Decision-table oracle for every slash packet (honest downtime dete
       "online decision-table monitor + boundary call observer (decorated keepers) + shadow of owed acknowledgements", "2/C08")
 claim("C09", "Provider meter invariants at every BeginBlock, per-packet admit/bounce and deduction, offline window bound over the recorded meter log; consumer-side "
       "send/ack automaton and conservation of queued slash packets.", "online invariant monitor + offline checker over the meter log + trace automaton", "2/C09")
+claim("C13", "Store-diff monitor: every key of the provider store changed by the transaction phase, by BeginBlock lifecycle processing and by non-epoch EndBlocks is "
+      "attributed to a consumer id and must belong to a consumer the block concerns (ids 0..25+ so that textual-prefix pairs exist).",
+      "online store snapshot/diff monitor with a key-layout decoder", "2/C13")
+claim("C14", "Authorization-table oracle over a directed matrix of real signed transactions (incl. forged signer fields and governance proposals), tx-level "
+      "store diffs for rejected messages, per-validator key attribution for accepted ones, and a standing ownership/Top-N invariant in all worlds.",
+      "directed hostile workload + decision-table oracle + store-diff monitor + standing invariant", "2/C14")
